@@ -221,6 +221,20 @@ def run(tier, seed):
             nodes = [U, N, D] if order == 0 else [D, N, U]
             for mode in ("sync", "async"):
                 pairs.append((gen.job(0, IR.prog("top", nodes), [["x", uval]], mode=mode), f"equal-values/{uval}-over-{dval}/o{order}"))
+    # values that ARE tuples (length 0 / 1 / 2) flowing through single-output identity nodes: a node's return value is its
+    # output, whatever its shape
+    for tv in ("~tup0", "~tup1", "~tup2"):
+        for mode in ("sync", "async"):
+            U = IR.func("U", ["x"], ["a"], fn="id")
+            V = IR.func("V", ["a", "y"], ["b"], fn="id")
+            D = IR.func("D", ["b", "a"], ["c"])
+            pairs.append((gen.job(0, IR.prog("top", [U, V, D]), [["x", tv], ["y", "in.y"]], mode=mode), f"tuple-value/{tv}"))
+    # a side-effect-only GENERATOR node (no outputs): the runner still drains it (its body is what the node does)
+    for mode in ("sync", "async"):
+        for order in (0, 1):
+            S = IR.func("S", ["x"], [], fn="gen")
+            A = IR.func("A", ["x"], ["a"])
+            pairs.append((gen.job(0, IR.prog("top", [S, A] if order == 0 else [A, S]), [["x", "in.x"]], mode=mode), f"sink-generator/o{order}"))
     for i, (j, _) in enumerate(pairs):
         j["id"] = i + 1
     pairs += list(jobs_random(rng, 3000 if thorough else 400, len(pairs)))
